@@ -188,6 +188,14 @@ def toBytes (r : Req) : Except PyExc Bytes :=
     | .error e => .error e
     | .ok status => .ok (status ++ [13, 10] ++ latin1Replace (fieldsToStr r.fields) ++ [13, 10])
 
+/-- `WebProcessorSession._add_referrer` inside `_populate_common_request`:
+no referrer from an https page to an http URL, and none over one that is already set -/
+def populateReferrer (f : Fields) (parentUrl : Str) (scheme : Str) : Fields :=
+  if parentUrl ≠ [] ∧ (getField f (lit "Referer")).getD [] = [] then
+    if startsWith parentUrl (lit "https://") && scheme = lit "http" then f
+    else setField f (lit "Referer") parentUrl
+  else f
+
 /-! ### basic authentication text (concrete instance of the `auth` parameter) -/
 
 /-- `s.encode('utf-8', 'replace')`: lone surrogates become `?` -/
@@ -234,7 +242,7 @@ inductive Reply
   /-- a response: status code, whether a non-empty `Location` field is present, and its target -/
   | resp (status : Nat) (hasLoc : Bool) (tgt : Target)
   /-- no usable response: connection failure, garbage, timeout (some `REMOTE_ERRORS` exception) -/
-  | fail
+  | fail (e : PyExc)
   deriving DecidableEq, Repr, Inhabited
 
 structure Cfg where
@@ -376,7 +384,7 @@ def run (cfg : Cfg) (adv : List Req → Reply) : Nat → Sess → List Req → N
         let sent' := sent ++ [r2]
         let s1 := s.setCur r2
         match adv sent' with
-        | .fail => (sent', last, .error .NetworkError)
+        | .fail e => (sent', last, .error e)
         | .resp st hasLoc tgt =>
           match processResponse cfg s1 r2 st hasLoc tgt with
           | .error e => (sent', st, .error e)
